@@ -39,6 +39,50 @@ func c19Reaches(g *ssa.Function, pred func(ssa.Instruction) bool, depth int) boo
 	return rec(g, 0)
 }
 
+// c19DerivesFrom: v depends on a value matching src, directly or — when v
+// depends on a parameter of the unexported, never address-taken function f —
+// through the corresponding argument at every in-package static call site of f.
+func c19DerivesFrom(p *core.Prog, f *ssa.Function, v ssa.Value, src func(ssa.Value) bool, depth int) bool {
+	if core.DependsOn(v, src) {
+		return true
+	}
+	if depth > 2 || f.Parent() != nil || f.Object() == nil || f.Object().Exported() {
+		return false
+	}
+	for i, pa := range f.Params {
+		if !core.DependsOn(v, func(x ssa.Value) bool { return x == ssa.Value(pa) }) {
+			continue
+		}
+		sites := 0
+		for _, g := range p.PkgFuncs(logxPkg) {
+			for _, b := range g.Blocks {
+				for _, in := range b.Instrs {
+					// used as a value (not called): unknown callers
+					for _, op := range in.Operands(nil) {
+						if *op == ssa.Value(f) {
+							if c, ok := in.(ssa.CallInstruction); !ok || c.Common().Value != ssa.Value(f) {
+								return false
+							}
+						}
+					}
+					c, ok := in.(ssa.CallInstruction)
+					if !ok || c.Common().StaticCallee() != f || i >= len(c.Common().Args) {
+						continue
+					}
+					sites++
+					if !c19DerivesFrom(p, g, c.Common().Args[i], src, depth+1) {
+						return false
+					}
+				}
+			}
+		}
+		if sites > 0 {
+			return true
+		}
+	}
+	return false
+}
+
 func c19IsRecvOf(f *ssa.Function, typ string) bool {
 	if f.Signature.Recv() == nil {
 		return false
@@ -416,10 +460,10 @@ func c19(r *core.Run) {
 				n++
 				r.Fn(core.FuncName(f))
 				arg := core.Args(c)[0]
-				fromOutdated := core.DependsOn(arg, func(v ssa.Value) bool {
+				fromOutdated := c19DerivesFrom(p, f, arg, func(v ssa.Value) bool {
 					cl, ok := v.(*ssa.Call)
 					return ok && core.CallMethod("logx.RotateRule", "OutdatedFiles")(cl)
-				})
+				}, 0)
 				if fromOutdated {
 					continue
 				}
@@ -638,6 +682,12 @@ func c19(r *core.Run) {
 			for _, g := range core.Instrs(f, func(in ssa.Instruction) bool { _, ok := in.(*ssa.Go); return ok }) {
 				wf, _ := gxClosureOf(g.(*ssa.Go).Call.Value)
 				if wf == nil {
+					// `go l.runWorker()`: the worker is a named function / method
+					if sc := g.(*ssa.Go).Call.StaticCallee(); sc != nil && sc.Blocks != nil {
+						wf = sc
+					}
+				}
+				if wf == nil {
 					continue
 				}
 				recv := core.Instrs(wf, func(in ssa.Instruction) bool {
@@ -668,7 +718,7 @@ func c19(r *core.Run) {
 					d, ok := in.(*ssa.Defer)
 					return ok && core.CalleeName(d) == "(*sync.WaitGroup).Done"
 				})
-				if len(dones) == 0 || !core.Dominates(dones[0], recv[0]) {
+				if len(dones) == 0 || core.Precedes(wf, core.Is(dones...), core.Is(recv...)) != nil {
 					o.Fail(p.Pos(wf.Pos()), "the worker does not defer waitGroup.Done before entering its loop (Close blocks forever)")
 				}
 				// every received record reaches a writer
